@@ -14,7 +14,7 @@ import ast
 import re
 from ..core import walk_own, norm, is_self_attr, AnalysisError
 from ..report import Ob, Floor
-from ..rules import twin
+from ..rules import twin, plumb
 from ..rules.effect import EffectIndex, OptionInfluence
 from ..abseval import Evaluator, Opaque
 from .. import exceptions
@@ -48,7 +48,8 @@ def stem_tables(ctx, clause):
     ev = Evaluator(ctx)
     cases = [("http://", None), ("https://", None), ("http://a", None), ("https://a.org/x", "https://a.org/"), ("http://a.org/", "http://a.org/"),
              ("http://a.org/people#al", "http://a.org/people#"), ("urn:people:al", "urn:people:"), ("ab", None), ("", None), ("a:", None),
-             ("ab:", "ab:"), ("nocolon", None)]
+             ("ab:", "ab:"), ("nocolon", None), ("urn:isbn:0451450", "urn:isbn:"), ("urn:issn:12", "urn:issn:"),
+             ("http://localhost:80", "http://localhost:"), ("http://ex.org/id:100", "http://ex.org/id:")]
     for lcp, want in cases:
         outs = ev.outcomes(f, {"longest_common_prefix": lcp})
         rows += 1
@@ -69,18 +70,55 @@ def stem_tables(ctx, clause):
                   "the 'no instance seen yet' marker %r is also a possible fold result (common prefix of IRIs): once the prefix "
                   "collapses to it the fold restarts from the next instance" % (sent,)))
     u = p.method("ClassProfiler", "_update_shape_min_iri")
+
+    def base_env():
+        # fields the constructor initialises with an empty container are available to the method
+        env = {}
+        for st in walk_own(u.cls.find_method("__init__").node):
+            if isinstance(st, ast.Assign) and len(st.targets) == 1 and is_self_attr(st.targets[0]) and \
+                    isinstance(st.value, (ast.Dict, ast.List)) and not (st.value.keys if isinstance(st.value, ast.Dict) else st.value.elts):
+                env["self." + st.targets[0].attr] = {} if isinstance(st.value, ast.Dict) else []
+        return env
     for label, cur, inst, want in (("first instance", sent, "http://a/x", "http://a/x"), ("prefix collapsed to empty", "", "urn:b:y", ""),
                                    ("normal fold", "http://a/x", "http://a/y", "http://a/")):
         store = {"cur": cur}
         sfe = {"shape_min_iri()": lambda d: d["cur"], "set_shape_min_iri()": None, "cur": cur}
         ev2 = Evaluator(ctx, watch={"set_shape_min_iri"})
-        outs = ev2.outcomes(u, {"target_shape": "S", "instance_iri": inst}, {"self._shape_feature_examples": sfe})
+        outs = ev2.outcomes(u, {"target_shape": "S", "instance_iri": inst}, dict(base_env(), **{"self._shape_feature_examples": sfe}))
         rows += 1
         sets = [dict(e[1:]).get("min_iri") if all(isinstance(x, tuple) for x in e[1:]) else None for o in outs for e in o[2]]
         ok = len(outs) == 1 and sets == [want]
         obs.append(Ob(clause, "R-TABLE", "R-TABLE|min-iri-fold|%s" % label, u.loc(), ok,
                       "%s: stored prefix %r + instance %r -> %r" % (label, cur, inst, want) if ok else
                       "%s: expected %r to be stored, code stores %s (%s)" % (label, want, sets, outs)))
+    # the fold over a SEQUENCE of instances (the object keeps whatever state it likes between calls): the stored prefix
+    # after the last instance is the common prefix of all of them, whatever order and whatever they share
+    import os.path
+    seqs = [("shared path, names diverge after a ':'", ["http://a/r/Category:Dogs", "http://a/r/Category:Cats", "http://a/r/Template:X"]),
+            ("urn without slash", ["urn:issn:1234", "urn:issn:1299", "urn:isbn:0451"]),
+            ("two hosts", ["http://a/x1", "http://a/x2", "http://b/x3"])]
+    for label, insts in seqs:
+        ev3 = Evaluator(ctx, watch={"set_shape_min_iri"})
+        sfe = {"shape_min_iri()": lambda d: d["cur"], "set_shape_min_iri()": None, "cur": sent}
+        selfenv = dict(base_env(), **{"self._shape_feature_examples": sfe})
+        ok, got = True, None
+        try:
+            for inst in insts:
+                ev3._decisions, ev3._taken, ev3.effects, ev3._yields = [], [], [], []
+                ev3.call(u, {"target_shape": "S", "instance_iri": inst}, selfenv, 0)
+                for e in ev3.effects:
+                    kw = dict(x for x in e[1:] if isinstance(x, tuple) and len(x) == 2)
+                    if "min_iri" in kw:
+                        sfe["cur"] = kw["min_iri"]
+            got = sfe["cur"]
+        except Exception as e:          # Fork / AnalysisError: the row cannot be evaluated
+            raise AnalysisError("min-IRI fold sequence not evaluable: %s" % e)
+        rows += 1
+        want = os.path.commonprefix(insts)
+        ok = got == want
+        obs.append(Ob(clause, "R-TABLE", "R-TABLE|min-iri-fold-sequence|%s" % label, u.loc(), ok,
+                      "%s: after %d instances the stored prefix is their common prefix %r" % (label, len(insts), want) if ok else
+                      "%s: after folding %s the stored prefix is %r, their common prefix is %r" % (label, insts, got, want)))
     return obs, rows
 
 
@@ -185,6 +223,10 @@ def check(ctx, tier):
                           "control use of %s changes only examples / text" % opt if not bad else
                           "option %s controls `%s` in %s, whose arms differ in %s" % (opt, norm(test)[:50], ff.short,
                                                                                    ", ".join("%s in %s" % (k, fn) for k, d, fn in bad[:3]))))
+    for _opt in ("detect_minimal_iri", "examples_mode"):
+        obs += ctx.attempt(lambda c, cl, o=_opt: plumb.forwarding(c, cl, o, lambda prm: prm == o,
+                                                                   [c.flow.param("shexer.shaper:Shaper.__init__", o)],
+                                                                   skip_funcs={"shexer.shaper:Shaper.__init__"})[0], ctx, "D-e", default=[])
     exceptions.apply(obs)
     return {"obs": obs, "floors": [Floor("stem / fold table rows", rows, 20), Floor("example bookkeeping sites", n_ex, 6),
                                    Floor("option control sites", nsites, 15)],
